@@ -158,6 +158,10 @@ func c09Run(tier string, seed int64, idx int) *core.Result {
 	b := bed.New(bed.Opts{Cap: idx % 2 * 4, Serialise: idx%3 == 0})
 	cc := b.Conns[0]
 	end := b.Links[0].A
+	// a reader that gives up at the first failure is answered with it once; one that has been
+	// answered 20 000 times while calls are still pending is spinning on the failed transport
+	spinGuard = func() bool { return end.FailedReads() > 20000 }
+	defer func() { spinGuard = nil }()
 	end.SetReadErr(c09ReadErr(c.ReadErr)) // however the transport words its failure, the calls must fail
 	gates := NewGates()
 
@@ -322,6 +326,14 @@ func c09Run(tier string, seed int64, idx int) *core.Result {
 		st, snap = settle(tier, allDoneLate)
 	}
 	switch st {
+	case "livelock":
+		var pend []string
+		for _, r := range all {
+			if !isDone(r) {
+				pend = append(pend, r.tag+"("+r.spec.Kind+")")
+			}
+		}
+		res.Violate("client-spins-on-failed-transport/"+c.Timing, "the transport's Read has failed %d times (it fails for good after %d responses) and the client keeps calling it while calls %v are still pending: they will never return", end.FailedReads(), c.Pos, pend)
 	case "stuck":
 		var pend []string
 		for _, r := range all {
